@@ -112,8 +112,8 @@ func (*c14Prop) Plans(tier string) []Plan {
 	return []Plan{
 		{Name: "plain", Workers: 16, Runs: 4000000, MaxTime: 480e9},
 		{Name: "race", Race: true, Workers: 16, Runs: 4000000, MaxTime: 600e9},
-		{Name: "race-cold", Race: true, Workers: 128, Runs: 1, MaxTime: 60e9, Cold: true},
-		{Name: "plain-cold", Workers: 128, Runs: 1, MaxTime: 60e9, Cold: true},
+		{Name: "race-cold", Race: true, Workers: 1024, Runs: 1, MaxTime: 60e9, Cold: true},
+		{Name: "plain-cold", Workers: 1024, Runs: 1, MaxTime: 60e9, Cold: true},
 		{Name: "deep", Variant: 1, Workers: 16, Runs: 100000, MaxTime: 300e9},
 		{Name: "deep-race", Variant: 1, Race: true, Workers: 16, Runs: 100000, MaxTime: 300e9},
 	}
